@@ -72,7 +72,7 @@ package inode
 //@ spec (*Inode).DecLink
 //@   props C05 C04 C14
 //@   requires locked(ip) && inodeInv(ip) && atxnInv(atxn) && lastst == 0
-//@   modifies ip.Nlink, dirtyinum
+//@   modifies ip.Nlink, dirtyinum, wroteinum
 //@   ensures ip.Nlink == old(ip.Nlink) - 1 && (result <==> ip.Nlink == 0)
 //@   ensures !dirtyinum[ip.Inum] && (forall j uint64 :: j != ip.Inum ==> dirtyinum[j] == old(dirtyinum)[j])
 
@@ -106,16 +106,18 @@ package inode
 //@   requires locked(ip) && atxnInv(atxn) && lastst == 0
 //@   requires [I1-store] inodeInv(ip) @C04 @C11
 //@   allocates []uint8, marshal.Enc, cell:uint64
-//@   modifies dirtyinum
+//@   modifies dirtyinum, wroteinum
 //@   ghostexit dirtyinum = store(dirtyinum, ip.Inum, false)
+//@   ghostexit wroteinum = store(wroteinum, ip.Inum, true)
 //@   ensures [S1-synced] !dirtyinum[ip.Inum] && (forall j uint64 :: j != ip.Inum ==> dirtyinum[j] == old(dirtyinum)[j]) @C10
+//@   ensures [A2-written] wroteinum[ip.Inum] && (forall j uint64 :: old(wroteinum)[j] ==> wroteinum[j]) @C09
 
 //@ spec (*Inode).FreeInode
 //@   props C08 C05 C10 C11 C14
 //@   requires locked(ip) && inodeInv(ip) && txnOK(atxn)
 //@   requires [valid] validInum(ip.Inum) @C04 @C11
 //@   allocates []uint8, marshal.Enc, cell:uint64
-//@   modifies ip.Kind, ip.Gen, dirtyinum, atxn.freeInums, atxn.freeInums[*]
+//@   modifies ip.Kind, ip.Gen, dirtyinum, wroteinum, atxn.freeInums, atxn.freeInums[*]
 //@   ensures [H2-genbump] ip.Gen == old(ip.Gen) + 1 && ip.Kind == 0 @C08
 //@   ensures [S1-synced] !dirtyinum[ip.Inum] && (forall j uint64 :: j != ip.Inum ==> dirtyinum[j] == old(dirtyinum)[j]) @C10
 //@   ensures listsValid(atxn) && listsStable(atxn)
@@ -160,7 +162,7 @@ package inode
 //@   requires locked(ip) && inodeInv(ip) && txnOK(atxn)
 //@   preserves [allocInv] allocInv() @C15 @C04
 //@   allocates buf.Buf, marshal.Enc, marshal.Dec, cell:uint64
-//@   modifies ip.Size, ip.blks[*], dirtyinum, abits, atxn.allocBnums, []uint64@alloctxn.AllocTxn.allocBnums, []uint8, buf.Buf.dirty
+//@   modifies ip.Size, ip.blks[*], dirtyinum, wroteinum, abits, atxn.allocBnums, []uint64@alloctxn.AllocTxn.allocBnums, []uint8, buf.Buf.dirty
 //@   ensures [Q3-refuse] (offset + count < offset || offset + count > 1073774592 || len(dataBuf) < count) ==> result0 == 0 && !result1 && ip.Size == old(ip.Size) && dirtyinum == old(dirtyinum) && abits == old(abits) @C19 @C11 @C09
 //@   ensures [Fn2-count] result0 <= count @C02
 //@   ensures [Fn2-size] result0 > 0 ==> result1 && ip.Size == ite(old(ip.Size) > offset + result0, old(ip.Size), offset + result0) @C02
@@ -182,7 +184,7 @@ package inode
 //@   requires [count32] bytesToRead <= 4294967296 @C11
 //@   preserves [allocInv] allocInv() @C15 @C04
 //@   allocates buf.Buf, marshal.Enc, marshal.Dec, cell:uint64, []uint8
-//@   modifies ip.blks[*], dirtyinum, abits, atxn.allocBnums, []uint64@alloctxn.AllocTxn.allocBnums, []uint8, buf.Buf.dirty
+//@   modifies ip.blks[*], dirtyinum, wroteinum, abits, atxn.allocBnums, []uint64@alloctxn.AllocTxn.allocBnums, []uint8, buf.Buf.dirty
 //@   ensures [Fn1-past-eof] offset >= ip.Size ==> len(result0) == 0 && result1 @C02
 //@   ensures [Fn1-len] len(result0) <= bytesToRead && (offset < ip.Size ==> len(result0) <= ip.Size - offset) @C02 @C11
 //@   ensures [Fn1-eof] result1 <==> offset + len(result0) >= ip.Size @C02
@@ -226,7 +228,7 @@ package inode
 //@   props C05 C01 C04 C10 C11 C06 C12
 //@   requires locked(ip) && inodeInv(ip) && txnOK(op)
 //@   allocates buf.Buf, marshal.Enc, marshal.Dec, cell:uint64, []uint8
-//@   modifies ip.ShrinkSize, ip.blks[*], dirtyinum, buf.Buf.dirty, []uint8, op.freeBnums, []uint64@alloctxn.AllocTxn.freeBnums
+//@   modifies ip.ShrinkSize, ip.blks[*], dirtyinum, wroteinum, buf.Buf.dirty, []uint8, op.freeBnums, []uint64@alloctxn.AllocTxn.freeBnums
 //@   ensures [F2-more] result <==> ip.IsShrinking() @C05
 //@   ensures [R7-persisted] !dirtyinum[ip.Inum] && othersClean(ip) @C01 @C10
 //@   ensures [F3-monotone] ip.ShrinkSize <= old(ip.ShrinkSize) && ip.Size == old(ip.Size) @C05
@@ -253,7 +255,7 @@ package inode
 //@   requires [Q3-max] sz <= 1073774592 @C19 @C11
 //@   preserves [allocInv] allocInv() @C15 @C04
 //@   allocates buf.Buf, marshal.Enc, marshal.Dec, cell:uint64, []uint8
-//@   modifies ip.Size, ip.ShrinkSize, ip.blks[*], dirtyinum, abits, atxn.allocBnums, []uint64@alloctxn.AllocTxn.allocBnums, atxn.freeBnums, []uint64@alloctxn.AllocTxn.freeBnums, []uint8, buf.Buf.dirty
+//@   modifies ip.Size, ip.ShrinkSize, ip.blks[*], dirtyinum, wroteinum, abits, atxn.allocBnums, []uint64@alloctxn.AllocTxn.allocBnums, atxn.freeBnums, []uint64@alloctxn.AllocTxn.freeBnums, []uint8, buf.Buf.dirty
 //@   ensures [Fn3-size] ip.Size == sz @C02
 //@   ensures [F2-more] result <==> ip.IsShrinking() @C05
 //@   ensures [S1-synced] !dirtyinum[ip.Inum] && othersClean(ip) @C10
